@@ -219,22 +219,12 @@ func (p *Prog) factsAt(stack []ast.Node, invalidates func(s ast.Stmt) bool) []fa
 					addCond(s.Cond, true)
 				} else if s.Else != nil && stack[i+1] == s.Else {
 					addCond(s.Cond, false)
-				} else if containsNode(s.Cond, site) {
-					// to the right of `a ||` the left operand is false; to the right of `a &&` it is true
-					var walk func(e ast.Expr)
-					walk = func(e ast.Expr) {
-						e = ast.Unparen(e)
-						if be, ok := e.(*ast.BinaryExpr); ok && (be.Op == token.LOR || be.Op == token.LAND) {
-							if containsNode(be.Y, site) {
-								addCond(be.X, be.Op == token.LAND)
-								walk(be.Y)
-							} else if containsNode(be.X, site) {
-								walk(be.X)
-							}
-						}
-					}
-					walk(s.Cond)
 				}
+			}
+		case *ast.BinaryExpr:
+			// to the right of `a ||` the left operand is false; to the right of `a &&` it is true
+			if (s.Op == token.LOR || s.Op == token.LAND) && i+1 < len(stack) && stack[i+1] == ast.Node(s.Y) {
+				addCond(s.X, s.Op == token.LAND)
 			}
 		case *ast.ForStmt:
 			if s.Cond != nil && i+1 < len(stack) && stack[i+1] == ast.Node(s.Body) {
